@@ -154,6 +154,45 @@ func checkC04(w *World, r *Report) {
 	r.rule("C04.barrier", "every function value that can be stored in types.Func.Fn either starts with a deferred total recover handler or has a fully audited body")
 	r.rule("C04.recover-total", "every deferred recover handler handles every recovered value without an unchecked assertion")
 	r.rule("C04.go", "the body of every go statement in the library is audited as a root of its own (no barrier of the spawner protects it)")
+	// whatever fails inside a try body - including a panic of a host function bound without the binder's own
+	// barrier - is catchable: the function that runs the try body starts with a deferred handler that calls
+	// recover() itself (recover only works in the deferred function's own frame)
+	r.rule("C04.try-barrier", "the function or closure that evaluates the body of try starts by deferring a function that calls recover() directly and stores the error into the runner's own result (a panic raised in a try body reaches catch instead of the host)")
+	if m := newEvalModel(w, e); m.ok {
+		if reg, ok := m.regions["try"]; ok {
+			nr := 0
+			for _, b := range m.EVAL.Blocks {
+				if !reg[b] {
+					continue
+				}
+				for _, in := range b.Instrs {
+					c, ok := in.(*ssa.Call)
+					if !ok {
+						continue
+					}
+					var fn *ssa.Function
+					if mc, ok := c.Call.Value.(*ssa.MakeClosure); ok {
+						fn = mc.Fn.(*ssa.Function)
+					} else if sc := c.Call.StaticCallee(); sc != nil {
+						if _, isHelper := m.helperSites[sc]; isHelper {
+							fn = sc
+						}
+					}
+					if fn == nil || !callsFn(fn, m.doFn) || doCallMode(fn, m.doFn) != "all" {
+						continue
+					}
+					nr++
+					_, isB := w.barrierOf(fn)
+					r.check(isB, "C04.try-barrier", fn, "runner of the try body", c.Pos(), "starts with defer of a function that calls recover() itself", "the try body does not run under a working recover handler (no deferred handler first, or recover() is called one frame too deep and returns nil): a panic in a try body escapes EVAL")
+				}
+			}
+			r.floor("C04.try-barrier", "runners of the try body", nr, 1)
+		} else {
+			r.undecided("C04.try-barrier", nil, "try region", 0, "special form not found")
+		}
+	} else {
+		r.undecided("C04.try-barrier", nil, "evaluator model", 0, m.why)
+	}
 	a := newAudit(w, e, r, "C04.site")
 	a.exempt = exemptionsC04
 	entries := evalEntries(w)
@@ -251,6 +290,11 @@ func barrierNames(w *World, a *Audit) string {
 func checkC05(w *World, r *Report) {
 	e := newEngine(w)
 	r.rule("C05.site", "every instruction that can panic in the call closure of READ, READWithPreamble, reader.Read_str, the read-string builtin and PRINT is guarded; parameters the documentation allows to be nil (cursor, placeholder table, environment) are tracked as may-nil through every call")
+	// the reader looks constructors up in an environment other evaluations may be writing: an unlocked read of
+	// the environment's map is not an error value but a fatal "concurrent map read and map write"
+	r.rule("C05.env-lock", "every access to Env.data reachable by the reader holds that environment's lock (shared with C11.data): the lock-free *NT methods are only called with the lock held")
+	guardRule(w, r, e, "C05.env-lock", guardTable[2])
+	r.floor("C05.env-lock", "accesses to Env.data and calls of lock-required methods", r.count("C05.env-lock"), 10)
 	a := newAudit(w, e, r, "C05.site")
 	a.exempt = exemptionsC05
 	var entries []*ssa.Function
